@@ -816,6 +816,11 @@ Definition supported_fmt (k : kind) (f : N) : bool :=
          (f =? cfg_CTEEncodingFormatHexadecimal) || (f =? cfg_CTEEncodingFormatHexadecimalZeroFilled)
   end.
 
+(* write, then read *)
+Definition roundtrip (fmt_g : N -> bytes) (parse_dec : N -> bytes -> option N)
+           (k : kind) (f : N) (xs : list N) : outcome (kind * list N) :=
+  outcome_bind (print_elems fmt_g k f xs) (read_elems parse_dec).
+
 Definition elems_wf (k : kind) (xs : list N) : Prop := Forall (fun x => x < 2 ^ kind_bits k) xs.
 Definition elems_wfb (k : kind) (xs : list N) : bool := forallb (fun x => x <? 2 ^ kind_bits k) xs.
 
